@@ -1,7 +1,11 @@
 import FxVerif.Model.C17
 import FxVerif.Model.C17Proc
 import FxVerif.Model.C17Machine
+import FxVerif.Model.C17Float
+import FxVerif.Model.C17Sort
 import FxVerif.Proofs.C17
+import FxVerif.Proofs.C17Float
+import FxVerif.Proofs.C17Sort
 /-!
 # C17 — deterministic block execution (the part a Lean model can carry)
 
@@ -33,8 +37,15 @@ process values that the translator now also reports (metrics of the gov end bloc
 — each of which `inventory_covered` admits only in its own class -/
 theorem no_clock_goroutine_random :
     sites.all (fun s => s.kind == "mapRange" || s.kind == "float" ||
-      ((s.kind == "timeNow" || s.kind == "procValue") &&
-        (classify s == some .telemetry || classify s == some .exportOnly || classify s == some .nodeConfig))) = true := by decide
+      (s.kind == "timeNow" && (classify s == some .telemetry || classify s == some .exportOnly)) ||
+      (s.kind == "envRead" && classify s == some .nodeConfig)) = true := by decide
+
+/-- no process-specific value (stack trace, goroutine / cpu count, pid), no printed address (`%p`, `%v` of a value that
+contains a pointer, reflect / unsafe pointer values), no random number — directly or through a dependency wrapper — and no
+environment read outside the package initialisation of `types` anywhere in the scanned packages -/
+theorem no_pointer_format_no_process_value :
+    sites.all (fun s => s.kind != "pointerFormat" && s.kind != "procValue" && s.kind != "rand" && s.kind != "go" && s.kind != "select" &&
+      (s.kind != "envRead" || (s.pkg == "types" && s.func == "init"))) = true := by decide
 
 /-- the statement as it was before wrappers and process values were inventoried: no direct `time.Now/Since/Until`, no
 goroutine, `select` or random-number call at all -/
@@ -235,6 +246,133 @@ theorem cached_gas_breaks_determinism :
     (runEvs gasCacheHandler [] ⟨[], 0⟩ [.deliver "a"]).2 ≠ (runEvs gasCacheHandler [] ⟨[], 0⟩ [.serve "a", .deliver "a"]).2 :=
   ⟨⟨[.deliver "a", .deliver "a"], [.deliver "a", .restart, .deliver "a"], rfl, by decide⟩, by decide, by decide⟩
 
+/-! ## (e) the tail of `PowerDiff`: one binary64 division, `%.8f`, comparison — as functions of the exact integer sum -/
+
+/-- the regenerated shape: exactly one float division outside the map loop, by `math.MaxUint32`, rendered with `%.8f` -/
+theorem powerDiff_tail_shape : powerDiffDivisions = 1 ∧ powerDiffDivisor = 2 ^ 32 - 1 ∧ powerDiffPrecision = 8 := by decide
+
+/-- binary64 division (the model `fdiv`): the returned dyadic `m / 2^k` is within half a unit in the last place of the
+exact quotient `n / d` — it IS the exact rational rounded, whatever produced `n` -/
+theorem fdiv_half_ulp (n d : Nat) (hn : 0 < n) (hd : 0 < d) :
+    2 * ((fdiv n d).m * d) ≤ 2 * (n * 2 ^ (fdiv n d).k) + d ∧ 2 * (n * 2 ^ (fdiv n d).k) ≤ 2 * ((fdiv n d).m * d) + d :=
+  FxVerif.Proofs.C17.fdiv_half_ulp n d hn hd
+
+/-- `%.pf` (the model `fmtFixed`): within half a unit of `10^-p` of the binary64 value, and monotone in its numerator -/
+theorem fmtFixed_half_unit (p : Nat) (v : Dy) :
+    2 * (fmtFixed p v * 2 ^ v.k) ≤ 2 * (v.m * 10 ^ p) + 2 ^ v.k ∧ 2 * (v.m * 10 ^ p) ≤ 2 * (fmtFixed p v * 2 ^ v.k) + 2 ^ v.k :=
+  FxVerif.Proofs.C17.rhe_half _ _ (Nat.pos_of_ne_zero (by simp))
+
+theorem fmtFixed_mono (p k m₁ m₂ : Nat) (h : m₁ ≤ m₂) : fmtFixed p ⟨m₁, k⟩ ≤ fmtFixed p ⟨m₂, k⟩ :=
+  FxVerif.Proofs.C17.rhe_mono _ _ _ (Nat.pos_of_ne_zero (by simp)) (Nat.mul_le_mul_right _ h)
+
+/-- the rendered power difference is the exact rational `n / (2^32-1)` up to LESS than one unit of the eighth decimal, for
+every integer sum the accumulation can produce: both roundings together (53-bit quotient, 8 decimals) never move the
+result by a full unit.  `render n` is a function of the integer `n` alone. -/
+theorem render_within_one_unit (n : Nat) (h0 : 0 < n) (h : n < 2 ^ 53) :
+    render n * powerDiffDivisor < n * 10 ^ powerDiffPrecision + powerDiffDivisor ∧
+    n * 10 ^ powerDiffPrecision < render n * powerDiffDivisor + powerDiffDivisor := by
+  have hk := FxVerif.Proofs.C17.fdiv_k_ge n h0 h
+  have a1 := FxVerif.Proofs.C17.fdiv_half_ulp n powerDiffDivisor h0 (by decide)
+  have hK : 2 ^ 31 ≤ 2 ^ (fdiv n powerDiffDivisor).k := Nat.pow_le_pow_right (by decide) hk
+  have a2 := FxVerif.Proofs.C17.rhe_half ((fdiv n powerDiffDivisor).m * 10 ^ powerDiffPrecision) (2 ^ (fdiv n powerDiffDivisor).k) (by omega)
+  have hKpos : 0 < 2 ^ (fdiv n powerDiffDivisor).k := by omega
+  unfold render fmtFixed
+  generalize rhe ((fdiv n powerDiffDivisor).m * 10 ^ powerDiffPrecision) (2 ^ (fdiv n powerDiffDivisor).k) = R at *
+  generalize (fdiv n powerDiffDivisor).m = m at *
+  generalize 2 ^ (fdiv n powerDiffDivisor).k = K at *
+  have hp : powerDiffPrecision = 8 := rfl
+  have hd : powerDiffDivisor = 4294967295 := rfl
+  simp only [hp, hd] at a1 a2 ⊢
+  generalize hX : R * K = X at *
+  generalize hY : n * K = Y at *
+  constructor
+  · apply Nat.lt_of_mul_lt_mul_right (a := K)
+    have e1 : R * 4294967295 * K = 4294967295 * X := by rw [← hX]; ac_rfl
+    have e2 : (n * 10 ^ 8 + 4294967295) * K = 10 ^ 8 * Y + 4294967295 * K := by rw [← hY, Nat.add_mul]; ac_rfl
+    rw [e1, e2]
+    omega
+  · apply Nat.lt_of_mul_lt_mul_right (a := K)
+    have e1 : (R * 4294967295 + 4294967295) * K = 4294967295 * X + 4294967295 * K := by rw [← hX, Nat.add_mul]; ac_rfl
+    have e2 : n * 10 ^ 8 * K = 10 ^ 8 * Y := by rw [← hY]; ac_rfl
+    rw [e1, e2]
+    omega
+
+/-- normalisation of the model's binary64 quotient: the significand lies in [2^52, 2^53] (so `fdiv` really rounds to 53
+significant bits, for every numerator and divisor whose quotient is below 2^53) -/
+theorem fdiv_normal (n d : Nat) (hn : 0 < n) (hd : 0 < d) (hnd : n < 2 ^ 53 * d) :
+    2 ^ 52 ≤ (fdiv n d).m ∧ (fdiv n d).m ≤ 2 ^ 53 :=
+  FxVerif.Proofs.C17.fdiv_normal n d hn hd hnd
+
+/-- binary64 division is monotone in the numerator (as dyadic rationals `m / 2^k`, across changes of the exponent) -/
+theorem fdiv_mono (n₁ n₂ d : Nat) (h0 : 0 < n₁) (h : n₁ ≤ n₂) (hd : 0 < d) (hnd : n₂ < 2 ^ 53 * d) :
+    (fdiv n₁ d).m * 2 ^ (fdiv n₂ d).k ≤ (fdiv n₂ d).m * 2 ^ (fdiv n₁ d).k :=
+  FxVerif.Proofs.C17.fdiv_mono n₁ n₂ d h0 h hd hnd
+
+/-- the rendered power difference is monotone in the exact integer sum, over the whole range of the accumulation -/
+theorem render_mono (n₁ n₂ : Nat) (h : n₁ ≤ n₂) (hb : n₂ < 2 ^ 53) : render n₁ ≤ render n₂ := by
+  unfold render
+  by_cases h0 : n₁ = 0
+  · subst h0
+    have : fmtFixed powerDiffPrecision (fdiv 0 powerDiffDivisor) = 0 := by decide
+    rw [this]
+    exact Nat.zero_le _
+  · apply FxVerif.Proofs.C17.fmtFixed_mono_value
+    apply FxVerif.Proofs.C17.fdiv_mono n₁ n₂ powerDiffDivisor (by omega) h (by decide)
+    have : powerDiffDivisor = 4294967295 := rfl
+    rw [this]
+    omega
+
+/-- … so the decision has a single cut-off: once a power difference triggers an oracle-set request, every larger one does -/
+theorem needsOracleSet_mono (n₁ n₂ pct : Nat) (h : n₁ ≤ n₂) (hb : n₂ < 2 ^ 53) (h1 : needsOracleSet n₁ pct = true) :
+    needsOracleSet n₂ pct = true := by
+  unfold needsOracleSet at *
+  simp only [ge_iff_le, decide_eq_true_eq] at *
+  exact Nat.le_trans h1 (Nat.mul_le_mul_right _ (render_mono n₁ n₂ h hb))
+
+/-- hence the decision of `isNeedOracleSetRequest` is the comparison of the EXACT rational with the threshold whenever the
+two are at least `10^-8` apart (`percentRaw`: the parameter as an 18-decimal integer, capped at 1 by the code) -/
+theorem needsOracleSet_exact_outside_band (n percentRaw : Nat) (h0 : 0 < n) (h : n < 2 ^ 53) :
+    ((min percentRaw (10 ^ 18) + 10 ^ 10) * powerDiffDivisor ≤ n * 10 ^ 18 → needsOracleSet n percentRaw = true) ∧
+    (n * 10 ^ 18 + 10 ^ 10 * powerDiffDivisor ≤ min percentRaw (10 ^ 18) * powerDiffDivisor → needsOracleSet n percentRaw = false) := by
+  have r := render_within_one_unit n h0 h
+  have hp : powerDiffPrecision = 8 := rfl
+  have hd : powerDiffDivisor = 4294967295 := rfl
+  unfold needsOracleSet
+  simp only [hp, hd] at r ⊢
+  generalize render n = R at *
+  generalize min percentRaw (10 ^ 18) = T at *
+  constructor
+  · intro hge
+    simp only [ge_iff_le, decide_eq_true_eq]
+    omega
+  · intro hle
+    simp only [ge_iff_le, decide_eq_false_iff_not]
+    omega
+
+/-- the whole step — float accumulation in map order, division, rendering, comparison — gives the same result for every
+iteration order of the merged power map -/
+theorem powerDiffStep_perm {l₁ l₂ : List Int} (hp : l₁.Perm l₂) (pct : Nat) : powerDiffStep l₁ pct = powerDiffStep l₂ pct := by
+  unfold powerDiffStep
+  have hall : l₁.all (fun v => decide (v.natAbs ≤ 2 ^ 32)) = l₂.all (fun v => decide (v.natAbs ≤ 2 ^ 32)) := by
+    rw [Bool.eq_iff_iff]
+    simp only [all_eq_true]
+    exact ⟨fun h x hx => h x (hp.mem_iff.mpr hx), fun h x hx => h x (hp.mem_iff.mp hx)⟩
+  rw [← hall, ← hp.length_eq]
+  split
+  · rename_i hc
+    simp only [Bool.and_eq_true, all_eq_true, decide_eq_true_eq] at hc
+    rw [fsumAbs_perm hp hc.1 hc.2]
+  · rfl
+
+/-- … and, inside the range of the keeper, it is the function `render` / `needsOracleSet` of the EXACT integer sum -/
+theorem powerDiffStep_exact (l : List Int) (pct : Nat) (hb : ∀ v ∈ l, v.natAbs ≤ 2 ^ 32) (hn : l.length ≤ 2 ^ 20) :
+    powerDiffStep l pct = some (render (absSum l), needsOracleSet (absSum l) pct) := by
+  unfold powerDiffStep
+  have hc : (l.all (fun v => decide (v.natAbs ≤ 2 ^ 32)) && decide (l.length ≤ 2 ^ 20)) = true := by
+    simp only [Bool.and_eq_true, all_eq_true, decide_eq_true_eq]
+    exact ⟨hb, hn⟩
+  rw [if_pos hc, fsumAbs_exact l hb hn]
+
 /-! ## (d) the block machine: all schedules of map iteration give the same execution -/
 
 /-- regenerated order source of the unbonding loop of `UpdateProposalOracles`: the store iteration, not a map -/
@@ -272,6 +410,11 @@ theorem exec_schedule_independent (σ₁ σ₂ : Sched) (st : St) (op : Op) : ex
     simp only [execP, rangeMap, sortChains]
     rw [FxVerif.Proofs.C17.mergeSort_eq_of_perm strLe FxVerif.Proofs.C17.strLe_trans FxVerif.Proofs.C17.strLe_total hp
       (fun a b _ _ => FxVerif.Proofs.C17.strLe_antisymm a b)]
+  | needOracleSet cur latest pct =>
+    have hp : (σ₁.pick st.ranges _ (mergePowers cur latest)).Perm (σ₂.pick st.ranges _ (mergePowers cur latest)) :=
+      (σ₁.perm _ _ _).trans (σ₂.perm _ _ _).symm
+    simp only [execP, rangeMap]
+    rw [powerDiffStep_perm (hp.map _) pct]
 
 /-- all histories: for every list of operations, from every state, any two schedules of map iteration orders produce the
 same final state (hence the same application hash) and the same outputs, operation by operation -/
@@ -327,6 +470,134 @@ theorem unbondList_store_order (σ : Sched) (st : St) (new : List String) :
   simp only [unbondList, Bool.false_eq_true, if_false]
   exact (filter_sublist).map _
 
+/-! ## (f) sorting: unique results for separating comparators, algorithm-defined results for ties -/
+
+/-- obligation over the regenerated sort sites: every one is reviewed, its comparator program is the reviewed one, and
+the class fits what the translator saw -/
+theorem sort_sites_covered : sortSites.all sortCovered = true := by decide
+
+/-- no sort with a comparator that leaves ties is fed by a range over a map (or by anything the translator cannot see
+through), outside query servers -/
+theorem tie_sorts_not_fed_by_maps :
+    sortSites.all (fun s => (sortClassify s).map (·.1) != some .tiesFixedAlgorithm || !fedByMap s) = true := by decide
+
+/-- ANY two sorting algorithms, applied to ANY two arrangements of the same elements, return the same list when the
+comparator separates distinct elements: unstable sorts, different toolchains and map-ordered inputs are all harmless then -/
+theorem sorter_unique {α : Type} (le : α → α → Bool) (s₁ s₂ : Sorter α le) {l₁ l₂ : List α} (hp : l₁.Perm l₂)
+    (anti : ∀ a b, a ∈ l₁ → b ∈ l₁ → le a b = true → le b a = true → a = b) : s₁.sort l₁ = s₂.sort l₂ := by
+  apply FxVerif.Proofs.C17.perm_sorted_eq le
+  · exact (s₁.perm l₁).trans (hp.trans (s₂.perm l₂).symm)
+  · exact s₁.sorted l₁
+  · exact s₂.sorted l₂
+  · intro a b ha hb
+    exact anti a b ((s₁.perm l₁).mem_iff.mp ha) ((s₁.perm l₁).mem_iff.mp hb)
+
+/-- the generic statement behind class `wholeElement`: a comparator program (ANY key list, interpreted by `cmpRec` on records
+with arbitrarily many numeric / text fields) whose keys cover every field of the element type cannot leave two distinct
+elements unseparated -/
+theorem cover_separates (keys : List SortKey) (fields : List String) (a b : Rec) (ha : a.map (·.1) = fields)
+    (hb : b.map (·.1) = fields) (hn : fields.Nodup) (hcov : ∀ f ∈ fields, ∃ k ∈ keys, k.field = f)
+    (h : cmpRec keys a b = .eq) : a = b :=
+  FxVerif.Proofs.C17.cover_separates keys fields a b ha hb hn hcov h
+
+/-- decided over the regenerated sites: every `wholeElement` site's keys cover its element type's (distinct) fields -/
+theorem whole_sites_ok : sortSites.all (fun s => (sortClassify s).map (·.1) != some .wholeElement || wholeOk s) = true := by decide
+
+/-- … hence EVERY sort site of class `wholeElement` — with the comparator program and the element fields as regenerated —
+separates distinct elements … -/
+theorem wholeElement_sites_separate (s : SortSite) (hs : s ∈ sortSites) (hc : (sortClassify s).map (·.1) = some .wholeElement)
+    (a b : Rec) (ha : a.map (·.1) = s.elemFields) (hb : b.map (·.1) = s.elemFields) (h : cmpRec s.keys a b = .eq) : a = b := by
+  have h1 := all_eq_true.mp whole_sites_ok s hs
+  simp only [hc, bne_self_eq_false, Bool.false_or] at h1
+  unfold wholeOk at h1
+  simp only [Bool.and_eq_true, all_eq_true, any_eq_true, beq_iff_eq, decide_eq_true_eq] at h1
+  exact cover_separates s.keys s.elemFields a b ha hb h1.2 (fun f hf => h1.1 f hf) h
+
+/-- … and its result is the same for any two sorting algorithms and any two arrangements of the same elements -/
+theorem wholeElement_sites_sort_unique (s : SortSite) (hs : s ∈ sortSites) (hc : (sortClassify s).map (·.1) = some .wholeElement)
+    (s₁ s₂ : Sorter Rec (leRec s.keys)) {l₁ l₂ : List Rec} (hp : l₁.Perm l₂) (hl : ∀ a ∈ l₁, a.map (·.1) = s.elemFields) :
+    s₁.sort l₁ = s₂.sort l₂ := by
+  apply FxVerif.Proofs.C17.perm_sorted_eq (leRec s.keys)
+  · exact (s₁.perm l₁).trans (hp.trans (s₂.perm l₂).symm)
+  · exact s₁.sorted l₁
+  · exact s₂.sorted l₂
+  · intro a b ha hb h1 h2
+    have ha' := (s₁.perm l₁).mem_iff.mp ha
+    have hb' := (s₁.perm l₁).mem_iff.mp hb
+    exact wholeElement_sites_separate s hs hc a b (hl a ha') (hl b hb') (FxVerif.Proofs.C17.leRec_antisymm s.keys a b h1 h2)
+
+/-- `NewOracleSet`: the regenerated comparator program of `BridgeValidators.Less` (power descending, then external address)
+separates any two distinct members, so the stored member order — hence the checkpoint every oracle signs — is the same
+for every sort algorithm and every order in which the members were collected -/
+theorem oracleSet_order_unique (s₁ s₂ : Sorter NS memberLe) {l₁ l₂ : List NS} (hp : l₁.Perm l₂) : s₁.sort l₁ = s₂.sort l₂ :=
+  sorter_unique memberLe s₁ s₂ hp (fun a b _ _ => FxVerif.Proofs.C17.memberLe_antisymm a b)
+
+/-- … in particular it is what the model's `sortMembers` computes (the function the driver runs against the real code) -/
+theorem oracleSet_order_is_sortMembers (s : Sorter NS memberLe) (l : List NS) : s.sort l = sortMembers l :=
+  oracleSet_order_unique s (FxVerif.Proofs.C17.insertSorter memberLe FxVerif.Proofs.C17.memberLe_trans FxVerif.Proofs.C17.memberLe_total) (Perm.refl l)
+
+/-- both adversaries at once: the members collected by ranging over a map under ANY two schedules (the shape of
+`GetCurrentOracleSet` if it gathered the oracles through a map) and sorted by ANY two algorithms give the same oracle set -/
+theorem oracleSet_schedule_and_algorithm_independent (σ₁ σ₂ : Sched) (s₁ s₂ : Sorter NS memberLe) (st : St) (members : List NS) :
+    s₁.sort (rangeMap σ₁ st members).1 = s₂.sort (rangeMap σ₂ st members).1 :=
+  oracleSet_order_unique s₁ s₂ ((σ₁.perm _ _ _).trans (σ₂.perm _ _ _).symm)
+
+/-- the staking precompile's `validatorList(missed)`: the regenerated comparator looks at the missed-block counter only,
+so two correct sorting algorithms may return different lists for the same input … -/
+theorem ties_algorithm_dependent :
+    ∃ (s₁ s₂ : Sorter NS missedLe) (l : List NS), s₁.sort l ≠ s₂.sort l :=
+  ⟨FxVerif.Proofs.C17.insertSorter missedLe FxVerif.Proofs.C17.missedLe_trans FxVerif.Proofs.C17.missedLe_total,
+   FxVerif.Proofs.C17.revInsertSorter missedLe FxVerif.Proofs.C17.missedLe_trans FxVerif.Proofs.C17.missedLe_total,
+   [⟨0, "val-a"⟩, ⟨0, "val-b"⟩], by decide⟩
+
+/-- … and ONE algorithm returns different lists for two arrangements of the same validators: were the input collected by
+ranging over a map, the result would depend on the schedule (`tie_sorts_not_fed_by_maps` excludes it) -/
+theorem ties_input_order_dependent :
+    ∃ (s : Sorter NS missedLe) (l₁ l₂ : List NS), l₁.Perm l₂ ∧ s.sort l₁ ≠ s.sort l₂ :=
+  ⟨FxVerif.Proofs.C17.insertSorter missedLe FxVerif.Proofs.C17.missedLe_trans FxVerif.Proofs.C17.missedLe_total,
+   [⟨0, "val-a"⟩, ⟨0, "val-b"⟩], [⟨0, "val-b"⟩, ⟨0, "val-a"⟩], Perm.swap _ _ _, by decide⟩
+
+theorem pairwiseB_iff {α : Type} (le : α → α → Bool) : ∀ l : List α, pairwiseB le l = true ↔ l.Pairwise (fun a b => le a b = true) := by
+  intro l
+  induction l with
+  | nil => simp [pairwiseB]
+  | cons a t ih => simp only [pairwiseB, Bool.and_eq_true, all_eq_true, pairwise_cons, ih]
+
+/-- the executable check the driver applies to the real `validatorList(missed)` output is exactly the sort contract -/
+theorem meetsSortContract_iff {α : Type} [BEq α] [LawfulBEq α] (le : α → α → Bool) (inp out : List α) :
+    meetsSortContract le inp out = true ↔ out.Perm inp ∧ out.Pairwise (fun a b => le a b = true) := by
+  unfold meetsSortContract
+  rw [Bool.and_eq_true, isPerm_iff, pairwiseB_iff]
+
+/-- … and every algorithm meeting the contract passes it -/
+theorem sorter_meets_contract {α : Type} [BEq α] [LawfulBEq α] (le : α → α → Bool) (s : Sorter α le) (l : List α) :
+    meetsSortContract le l (s.sort l) = true :=
+  (meetsSortContract_iff le l (s.sort l)).mpr ⟨s.perm l, s.sorted l⟩
+
+/-- what remains true for a comparator with ties: replicas that run the same algorithm on an input that is itself
+schedule-independent (the bonded validators in store order) agree, whatever their map schedules -/
+theorem fixed_algorithm_agrees {α β : Type} (srt : List α → List α) (collect : Sched → β → List α)
+    (hc : ∀ σ₁ σ₂ st, collect σ₁ st = collect σ₂ st) (σ₁ σ₂ : Sched) (st : β) : srt (collect σ₁ st) = srt (collect σ₂ st) := by
+  rw [hc σ₁ σ₂ st]
+
+/-! ## (g) values of the process environment -/
+
+/-- class `nodeConfig` / `envRead`: replicas whose construction-time memory differs ARBITRARILY (a default home directory
+computed from `$HOME`, anything else read from the environment at start-up) agree on state and outputs for equal block
+histories, provided no handler's state effect or output depends on that memory -/
+theorem env_read_at_init_irrelevant {M S I O : Type} (h : Handler M S I O) (m₁ m₂ : M)
+    (hign : ∀ m m' s i, (h m s i).2 = (h m' s i).2)
+    (evs₁ evs₂ : List (Ev I)) (hb : blocksOf evs₁ = blocksOf evs₂) (s : S) :
+    (Replica.run ⟨h, m₁, evs₁⟩ s) = (Replica.run ⟨h, m₂, evs₂⟩ s) :=
+  replicas_agree ⟨h, m₁, evs₁⟩ ⟨h, m₂, evs₂⟩ (fun _ => True) (fun _ => True) trivial trivial (fun _ _ _ _ => trivial)
+    (fun _ _ _ _ => trivial) (fun m m' s i _ _ => hign m m' s i) hb s
+
+/-- a handler that writes a process-specific value (an address, a stack trace, an environment variable) into state or
+output makes two replicas with equal block histories disagree: why `pointerFormat` / `procValue` have no admissible class -/
+theorem env_value_in_output_breaks_determinism :
+    ∃ (m₁ m₂ : Nat), (Replica.run ⟨envLeakHandler, m₁, [Ev.deliver "tx"]⟩ 0) ≠ (Replica.run ⟨envLeakHandler, m₂, [Ev.deliver "tx"]⟩ 0) :=
+  ⟨0xc000012340, 0xc000456780, by decide⟩
+
 -- non-vacuity
 example : procSites.length ≥ 5 := by decide
 example : sliceFeeders.length ≥ 2 := by decide
@@ -334,6 +605,18 @@ example : (run Sched.id ⟨[⟨"o1", 1, true, 5⟩, ⟨"o2", 1, true, 5⟩, ⟨"
     [.updateOracles ["o3"], .powerDiff [("a", 5), ("b", 7)] [("b", 2), ("c", 4)]]).2 = [.unbonded [("o1", 7), ("o2", 8)], .num 14] := by decide
 example : createBatchFees [⟨"b", 5, 10⟩, ⟨"a", 1, 5⟩, ⟨"b", 3, 7⟩, ⟨"b", 2, 1⟩] 2 [("a", 2)] = [("b", 8, 17, 2)] := by decide
 example : sites.length ≥ 20 := by decide
+example : sortSites.length ≥ 5 := by decide
+example : meetsSortContract missedLe [⟨0, "a"⟩, ⟨3, "b"⟩, ⟨0, "c"⟩] [⟨3, "b"⟩, ⟨0, "c"⟩, ⟨0, "a"⟩] = true ∧
+    meetsSortContract missedLe [⟨0, "a"⟩, ⟨3, "b"⟩] [⟨0, "a"⟩, ⟨3, "b"⟩] = false := by decide
+example : (sortSites.filter (fun s => (sortClassify s).map (·.1) == some .wholeElement)).length ≥ 3 := by decide
+example : cmpRec oracleSetKeys (memberRec 5 "0xa") (memberRec 5 "0xb") = .lt ∧ cmpRec oracleSetKeys (memberRec 5 "0xa") (memberRec 7 "0x0") = .gt := by decide
+example : sortMemberRecs [memberRec 5 "0xb", memberRec 7 "0xc", memberRec 5 "0xa"] = [memberRec 7 "0xc", memberRec 5 "0xa", memberRec 5 "0xb"] := by decide
+example : render (2 ^ 32 - 1) = 10 ^ 8 ∧ showFixed 8 (render 123456789012) = "28.74452366" := by decide
+example : needsOracleSet 429496709 (10 ^ 17) = true ∧ needsOracleSet 429496708 (10 ^ 17) = false := by decide
+example : powerDiffStep [3, -4, 0] (10 ^ 17) = some (0, false) := by decide
+example : (fdiv 1 powerDiffDivisor) = ⟨4503599628419072, 84⟩ ∧ render 429496708 < render 429496709 := by decide
+example : sortMembers [⟨5, "0xb"⟩, ⟨7, "0xc"⟩, ⟨5, "0xa"⟩] = [⟨7, "0xc"⟩, ⟨5, "0xa"⟩, ⟨5, "0xb"⟩] := by decide
+example : powerDiffStep [2 ^ 31, 5, -4] (10 ^ 17) = some (50000000, true) := by decide
 example : absSum [3, -4, 0] = 7 := by decide
 example : powerDiffNumerator [("a", 5), ("b", 7)] [("b", 2), ("c", 4)] = 5 + 5 + 4 := by decide
 example : tokenTotals [("b", 2, 10), ("a", 1, 5), ("b", 3, 7)] "b" = (5, 17, 2) := by decide
